@@ -127,6 +127,8 @@ class Design:
         return self.values.get(w.oid, 0)
 
     def put(self, w, v):
+        if isinstance(v, float):      # the summariser reads int(x) as x; a float can only come from a true division
+            v = int(v)
         self.values[w.oid] = v & ((1 << w.attrs['width']) - 1)
 
     def settle(self):
